@@ -10,6 +10,7 @@ import (
 	"context"
 	"encoding/hex"
 	"fmt"
+	"io"
 	"net/http"
 	"net/http/httptest"
 	"regexp"
@@ -17,6 +18,7 @@ import (
 	"strconv"
 	"strings"
 	"sync"
+	"time"
 
 	"github.com/klauspost/compress/zstd"
 
@@ -136,6 +138,37 @@ type streamCfg struct {
 	thr       int64 // externalize threshold (bytes)
 	zstd      bool  // compress uploads
 	hdr       bool  // register the static methods with a header type (ExchangeWithHeader / ProducerWithHeader)
+	xin       bool  // external-location config present: pointer inputs are fetched (from inStore) and resolved
+}
+
+// inputStore serves the objects external-location pointer inputs name (an http.RoundTripper over
+// memory: no network).
+type inputStore struct {
+	mu      sync.Mutex
+	objects map[string][]byte
+	n       int
+}
+
+func (st *inputStore) RoundTrip(req *http.Request) (*http.Response, error) {
+	st.mu.Lock()
+	b, ok := st.objects[req.URL.String()]
+	st.mu.Unlock()
+	if !ok {
+		return &http.Response{StatusCode: 404, Body: io.NopCloser(bytes.NewReader(nil)), Header: http.Header{}, Request: req}, nil
+	}
+	return &http.Response{StatusCode: 200, Body: io.NopCloser(bytes.NewReader(b)), ContentLength: int64(len(b)), Header: http.Header{}, Request: req}, nil
+}
+
+// put stores an object (nil: only reserve the URL, nothing is stored) and returns its URL.
+func (st *inputStore) put(data []byte) string {
+	st.mu.Lock()
+	defer st.mu.Unlock()
+	u := fmt.Sprintf("https://store.invalid/in/%06d", st.n)
+	st.n++
+	if data != nil {
+		st.objects[u] = data
+	}
+	return u
 }
 
 type tokInfo struct {
@@ -146,6 +179,7 @@ type tokInfo struct {
 }
 
 type streamEnv struct {
+	inStore *inputStore
 	noLearn bool // never try to open unknown values as tokens (no server at hand)
 	store   *memStorage
 	cfg     streamCfg
@@ -217,11 +251,15 @@ func newStreamEnvWith(cfg streamCfg, register func(*vgirpc.Server)) *streamEnv {
 	e := &streamEnv{cfg: cfg, callTok: map[string]int{}}
 	e.srv = vgirpc.NewServer()
 	register(e.srv)
-	if cfg.ext {
-		e.store = &memStorage{}
-		ec := &vgirpc.ExternalLocationConfig{Storage: e.store, ExternalizeThresholdBytes: cfg.thr}
-		if cfg.zstd {
-			ec.Compression = &vgirpc.Compression{Algorithm: "zstd", Level: 3}
+	e.inStore = &inputStore{objects: map[string][]byte{}}
+	if cfg.ext || cfg.xin {
+		ec := &vgirpc.ExternalLocationConfig{HTTPClient: &http.Client{Transport: e.inStore}, RetryDelay: time.Millisecond}
+		if cfg.ext {
+			e.store = &memStorage{}
+			ec.Storage, ec.ExternalizeThresholdBytes = e.store, cfg.thr
+			if cfg.zstd {
+				ec.Compression = &vgirpc.Compression{Algorithm: "zstd", Level: 3}
+			}
 		}
 		e.srv.SetExternalLocation(ec)
 	}
@@ -282,6 +320,8 @@ func parseStreamCfg(f []string) (streamCfg, bool) {
 			cfg.zstd = n != 0
 		case "hdr":
 			cfg.hdr = n != 0
+		case "xin":
+			cfg.xin = n != 0
 		default:
 			return cfg, false
 		}
@@ -601,6 +641,8 @@ func errKind(msg string) string {
 		return "badToken"
 	case strings.Contains(msg, "not issued by this method"):
 		return "wrongMethod"
+	case strings.Contains(msg, "resolving external request"):
+		return "resolveExt"
 	case strings.Contains(msg, "Input schema mismatch"):
 		return "cast"
 	}
